@@ -17,9 +17,16 @@ def group_and_judge(check, family, res):
         check.distinct((family, tuple(m["used"]), m["i"], m["layout"], m["ver"]))
         by.setdefault((m["i"], m["ver"]), []).append((m, t, r))
     for i, group in by.items():
+        def clean(g):
+            return not (g[2].get("panic") or g[2].get("hang") or g[2].get("crash") or g[2].get("nerr", 1) > 0 or not g[2].get("root"))
         base = [g for g in group if g[0]["layout"] == "none"][0]
-        if base[2].get("panic") or base[2].get("hang") or base[2].get("crash") or base[2].get("nerr", 1) > 0:
-            continue        # C01 / C03
+        if not clean(base):
+            # the minimal layout is rejected (C01 / C03 judge that) - but if another rendering of the same derivation is accepted,
+            # taking the optional white space away is what made the program invalid: that rendering becomes the reference
+            alt = [g for g in group if clean(g)]
+            if not alt or base[2].get("panic") or base[2].get("hang") or base[2].get("crash"):
+                continue
+            base = alt[0]
         for m, t, r in group:
             if m is base[0]:
                 continue
